@@ -103,10 +103,10 @@ std::string propCounter(const FmmCase& c){
             for(size_t ic = 0 ; ic < calls.size() && counterErr.empty() ; ++ic){
                 std::vector<uint32_t> s2 = c.sched; if(!s2.empty()) s2.push_back(uint32_t(e) * 40503u + uint32_t(ic) * 977u);
                 // worker count of this execution: the first execution uses c.threads; when c.threadsCtor is set the later executions run
-                // with that many workers. Generated cases only lower the count (variant 99 = probe of the known finding F-COUNTER-GROWTH:
-                // raising the count between two executions clones kernel 0 together with its accumulated counters)
+                // with that many workers, more or fewer (raising the count used to clone kernel 0 together with its accumulated
+                // counters: F-COUNTER-GROWTH, repaired; lowering it must not lose the counters of the idle copies)
                 int workers = c.threads;
-                if(e >= 1 && c.threadsCtor > 0) workers = (c.variant == 99) ? c.threadsCtor : std::min(c.threadsCtor, c.threads);
+                if(e >= 1 && c.threadsCtor > 0) workers = c.threadsCtor;
                 if(workers != c.threads) changedWorkers = true;
                 msched::global().reset(workers, s2);
                 a->execute(*treeB, calls[ic]);
@@ -136,7 +136,7 @@ std::string propCounter(const FmmCase& c){
     const long eM2L = modelM2L, eP2P = modelP2P;
     st.cls("executes=" + std::to_string(nbExec));
     if(calls.size() > 1) st.cls("staged-history (counters read between the calls)");
-    if(changedWorkers) st.cls("worker-count-lowered-between-executions");
+    if(changedWorkers) st.cls("worker-count-changed-between-executions");
     st.cls("kernel-copies", nbKernels);
     if(nbKernelsUsed >= 2) st.cls("counts-spread-over>=2-kernel-copies");
     const bool nontrivial = (RT == 1) ? (nbKernelsUsed >= 2) : (eM2L > 0 && eP2P > 0);
@@ -153,7 +153,7 @@ int main(int argc, char** argv){
     static const int hmax[5] = {0, 8, 6, 5, 4};
     g.maxH = int(a.getInt("maxh", hmax[Dim])); g.maxN = int(a.getInt("maxn", 150));
 #if RT == 1
-    g.schedules = true; g.executors = 2; g.varyThreads = true;    // threadsCtor = worker count of the executions after the first (only lowered, see propCounter)
+    g.schedules = true; g.executors = 2; g.varyThreads = true;    // threadsCtor = worker count of the executions after the first (see propCounter)
 #endif
     return hc::runMain(a, g, [&](const FmmCase& c){ return propCounter(c); });
 }
